@@ -259,6 +259,24 @@ pub fn misc_sizes(c: &MiscCase, info: &mut CaseInfo) -> Result<(), Fail> {
             ensure!(tl <= 32 + 16 * (2 * c.td_k as usize + 30), "C18.tdigest_image_size", "{ctx}: t-digest image {tl} bytes > 32 + 16 (2k + 30), k = {}", c.td_k);
         }
     }
+    // the bound belongs to the receiving configuration: a full sketch merged into fresh sketches of every smaller
+    // (and the next larger) map size, and into a sketch that was reset by deserializing an empty image
+    if !c.fi_strings {
+        for lg in 3..=(c.fi_lg + 1).min(11) {
+            let mut dst: FrequentItemsSketch<u64> = FrequentItemsSketch::new(1usize << lg);
+            if lg % 2 == 0 {
+                dst = FrequentItemsSketch::<u64>::deserialize(&dst.serialize()).map_err(|e| Fail { clause: "C18.fi_empty_image".into(), detail: format!("{e}") })?;
+            }
+            dst.merge(&fi_u);
+            let dcap = (1usize << lg) * 3 / 4;
+            let ctx = format!("a sketch of map size {} ({} active) merged into a fresh sketch of map size {}", 1usize << c.fi_lg, fi_u.num_active_items(), 1usize << lg);
+            ensure!(dst.maximum_map_capacity() == dcap && dst.num_active_items() <= dcap, "C18.fi_active_items", "{ctx}: {} active items > capacity {dcap}", dst.num_active_items());
+            ensure!(dst.lg_cur_map_size() <= dst.lg_max_map_size() && dst.current_map_capacity() <= dst.maximum_map_capacity(), "C18.fi_map_size", "{ctx}: current map lg {} > configured maximum lg {}", dst.lg_cur_map_size(), dst.lg_max_map_size());
+            let len = dst.serialize().len();
+            ensure!(len <= 32 + 16 * dcap, "C18.fi_image_size", "{ctx}: image {len} bytes > 32 + 16 * {dcap}");
+            ensure!(dst.total_weight() == fi_u.total_weight(), "C18.fi_merge_weight", "{ctx}: total weight {} -> {}", fi_u.total_weight(), dst.total_weight());
+        }
+    }
     info.nontrivial = c.n as usize > 4 * cap && c.shape != 1;
     info.label(["shape=distinct", "shape=repeated", "shape=sorted"][c.shape as usize % 3]);
     Ok(())
@@ -386,7 +404,7 @@ pub fn def() -> PropDef {
             }),
             Box::new(PropSub {
                 name: "fixed_and_capped_sizes",
-                rule: "Frequent Items (u64 or String items), Bloom, Count-Min and t-digest fed 1..60000 distinct / repeated / sorted items; at every power-of-two prefix: FI active items <= capacity and image <= 32 + 16 * capacity (+ string bytes), Bloom and Count-Min image lengths equal the constant their configuration implies, t-digest image <= 32 + 16 (2k + 30). non-trivial = stream longer than 4x the FI capacity and not the repeated shape",
+                rule: "Frequent Items (u64 or String items), Bloom, Count-Min and t-digest fed 1..60000 distinct / repeated / sorted items; at every power-of-two prefix: FI active items <= capacity and image <= 32 + 16 * capacity (+ string bytes), Bloom and Count-Min image lengths equal the constant their configuration implies, t-digest image <= 32 + 16 (2k + 30); at the end the Frequent Items sketch is merged into fresh (or deserialized-empty) sketches of every smaller and the next larger map size, whose own capacity, map size and image bounds must hold. non-trivial = stream longer than 4x the FI capacity and not the repeated shape",
                 cases_quick: 6_000,
                 cases_thorough: 30_000,
                 max_shrink_iters: 300,
